@@ -1,4 +1,5 @@
 import Proofs.Lemmas.Registry
+import Proofs.Lemmas.Waiters
 /-!
   C12 — the reverse-tunnel registry always matches the set of open reverse
   tunnels.  API-granular model (`TunnelModel/Lifecycle.lean`,
@@ -58,5 +59,52 @@ theorem C12_round_robin_all (r : Registry) (os : OpenSet) (h : RInv r os) (hn : 
 example :
     let r := ((Registry.open {} 10 1).open 11 2).open 12 1
     ((r.pickKey 1).2, ((r.pickKey 1).1.pickKey 1).2, r.all) = (some 12, some 10, [10, 11, 12]) := by decide
+
+/-! ### WaitForReady: no lost wake-up (model with the identity of the `avail` channel:
+TunnelModel/Waiters.lean; it refines to the `latchClosed` abstraction of `Pool`) -/
+
+open TunnelModel.Waiters in
+/-- **WaitForReady reflects whether the set is non-empty.**  For every sequence
+    of adds, removes (redundant ones included, as the code performs them) and
+    arriving waiters: whenever a tunnel is registered no caller is parked in
+    `WaitForReady`; a parked caller waits on the CURRENT `avail` channel of an
+    empty registry, so the next `add` releases it. -/
+theorem C12_no_lost_wakeup (ops : List Op) :
+    ((run ops).ready → ∀ w, ¬ (run ops).parked w) ∧
+    (∀ w g, (w, g) ∈ (run ops).waiters → g ∉ (run ops).closedGens →
+      g = (run ops).gen ∧ (run ops).chans = []) ∧
+    (∀ t w, ¬ (run (ops ++ [Op.add t])).parked w) :=
+  ⟨Proofs.Waiters.no_lost_wakeup ops, Proofs.Waiters.parked_on_current ops,
+   fun t w => Proofs.Waiters.after_add_none_parked ops t w⟩
+
+open TunnelModel.Waiters in
+/-- a caller entering `WaitForReady` passes at once iff a tunnel is registered,
+    and parks iff none is -/
+theorem C12_wait_iff_ready (ops : List Op) (w : Nat) :
+    ((run ops).waitPasses ↔ (run ops).ready) ∧
+    ((run (ops ++ [Op.wait w])).parked w ↔ ¬ (run ops).ready) :=
+  ⟨Proofs.Waiters.wait_returns_iff ops, Proofs.Waiters.wait_parks_iff ops w⟩
+
+open TunnelModel.Waiters in
+/-- `close(c.avail)` in `add` never hits a closed channel (no panic), and the
+    latch is closed exactly while tunnels are registered -/
+theorem C12_latch (ops : List Op) :
+    ((run ops).gen ∈ (run ops).closedGens ↔ (run ops).chans ≠ []) ∧
+    ((run ops).chans = [] → (run ops).gen ∉ (run ops).closedGens) :=
+  ⟨(Proofs.Waiters.latch_inv ops).1, Proofs.Waiters.add_closes_open_channel ops⟩
+
+open TunnelModel.Waiters in
+/-- the statement is not trivially true: replacing `avail` on every remove that
+    leaves the list empty (the seeded change C12-waitforready-lost-wakeup)
+    loses a wake-up -/
+theorem C12_faulty_remove_loses_wakeup :
+    (runBuggy Proofs.Waiters.lostRun).ready ∧ (runBuggy Proofs.Waiters.lostRun).parked 7 :=
+  Proofs.Waiters.buggy_loses_wakeup
+
+open TunnelModel.Waiters TunnelModel.RoundRobin in
+/-- the channel-identity model refines to the registry model used everywhere else -/
+theorem C12_waiters_refine_pool (ops : List Op) :
+    Proofs.Waiters.abs (run ops) = ops.foldl Proofs.Waiters.poolStep Pool.empty :=
+  Proofs.Waiters.abs_run ops
 
 end Proofs.C12
